@@ -29,11 +29,6 @@ theorem decN_enc {α} {e : α → Bytes} {d : Dec α} (h : RT e d) (l : List α)
   | nil => simp [decN]
   | cons a l ih => simp [decN, List.flatMap_cons, List.append_assoc, h a, ih]
 
-theorem encU64_eq (n : Nat) : encU64 n = [UInt8.ofNat (n % 256), UInt8.ofNat (n / 2^8 % 256), UInt8.ofNat (n / 2^16 % 256),
-    UInt8.ofNat (n / 2^24 % 256), UInt8.ofNat (n / 2^32 % 256), UInt8.ofNat (n / 2^40 % 256), UInt8.ofNat (n / 2^48 % 256),
-    UInt8.ofNat (n / 2^56 % 256)] := by
-  simp [encU64, List.range, List.range.loop, Nat.shiftRight_eq_div_pow]
-
 theorem decLE_append (k : Nat) (l r : Bytes) (h : l.length = k) :
     decLE k (l ++ r) = .ok (l.foldr (fun b acc => acc * 256 + b.toNat) 0, r) := by
   have hl : ¬ (l ++ r).length < k := by rw [List.length_append]; omega
@@ -43,13 +38,37 @@ theorem decLE_append (k : Nat) (l r : Bytes) (h : l.length = k) :
 theorem byte_toNat (x : Nat) : (UInt8.ofNat (x % 256)).toNat = x % 256 := by
   rw [UInt8.toNat_ofNat']; omega
 
+theorem foldr_le (n k a : Nat) :
+    ((List.range k).map fun i => UInt8.ofNat ((n >>> (8 * i)) % 256)).foldr (fun b acc => acc * 256 + b.toNat) a
+      = a * 256 ^ k + n % 256 ^ k := by
+  induction k generalizing a with
+  | zero => simp [Nat.mod_one]
+  | succ k ih =>
+    rw [List.range_succ, List.map_append, List.foldr_append]
+    simp only [List.map, List.foldr, byte_toNat]
+    have h28 : (2:Nat) ^ (8 * k) = 256 ^ k := by rw [Nat.pow_mul]
+    have hs : (256:Nat) ^ (k + 1) = 256 ^ k * 256 := Nat.pow_succ 256 k
+    rw [ih, Nat.shiftRight_eq_div_pow, h28, Nat.mod_pow_succ, hs]
+    generalize 256 ^ k = P
+    generalize n / P % 256 = q
+    generalize n % P = m
+    rw [Nat.add_mul, Nat.mul_assoc, Nat.mul_comm 256 P, Nat.mul_comm q P]
+    omega
 theorem decU64_enc (n : Nat) (hn : n < 2 ^ 64) (r : Bytes) : decU64 (encU64 n ++ r) = .ok (n, r) := by
   unfold decU64
-  rw [decLE_append 8 _ _ (encU64_length n), encU64_eq]
-  simp only [List.foldr, byte_toNat]
-  have : (((((((0 * 256 + n / 2 ^ 56 % 256) * 256 + n / 2 ^ 48 % 256) * 256 + n / 2 ^ 40 % 256) * 256 + n / 2 ^ 32 % 256) * 256 +
-      n / 2 ^ 24 % 256) * 256 + n / 2 ^ 16 % 256) * 256 + n / 2 ^ 8 % 256) * 256 + n % 256 = n := by omega
-  rw [this]
+  rw [decLE_append 8 _ _ (encU64_length n)]
+  unfold encU64
+  rw [foldr_le, Nat.mod_eq_of_lt (by have : (256:Nat) ^ 8 = 2 ^ 64 := by decide
+                                     omega)]
+  simp
+
+theorem decU128_enc (n : Nat) (hn : n < 2 ^ 128) (r : Bytes) : decU128 (encU128 n ++ r) = .ok (n, r) := by
+  unfold decU128
+  rw [decLE_append 16 _ _ (encU128_length n)]
+  unfold encU128
+  rw [foldr_le, Nat.mod_eq_of_lt (by have : (256:Nat) ^ 16 = 2 ^ 128 := by decide
+                                     omega)]
+  simp
 
 theorem flatMap_length_ge {α} (e : α → Bytes) (h1 : ∀ a, 1 ≤ (e a).length) (l : List α) :
     l.length ≤ (l.flatMap e).length := by
@@ -68,6 +87,40 @@ theorem rt_vec {α} {e : α → Bytes} {d : Dec α} (h : RT e d) (h1 : ∀ a, 1 
   have hng : ¬ l.length > (l.flatMap e ++ r).length := by rw [List.length_append]; omega
   simp only [hng, if_false]
   exact decN_enc h l r
+
+/-- round-trip restricted to values satisfying `P` (a `u128` is a `Nat` below 2^128 in the model). -/
+def RTOn {α} (P : α → Prop) (e : α → Bytes) (d : Dec α) : Prop := ∀ a r, P a → d (e a ++ r) = .ok (a, r)
+
+theorem decN_enc_on {α} {P : α → Prop} {e : α → Bytes} {d : Dec α} (h : RTOn P e d) (l : List α) (hp : ∀ a ∈ l, P a) (r : Bytes) :
+    decN d l.length (l.flatMap e ++ r) = .ok (l, r) := by
+  induction l with
+  | nil => simp [decN]
+  | cons a l ih =>
+    have ha := h a (l.flatMap e ++ r) (hp a (by simp))
+    have := ih (fun b hb => hp b (by simp [hb]))
+    simp [decN, List.flatMap_cons, List.append_assoc, ha, this]
+
+/-- the output-phase share message `Vec<Option<(bool, u128)>>` (wire form of `Vec<Option<(bool, Mac)>>`) round-trips for
+    every honest content: every MAC below 2^128, fewer than 2^64 slots, any trailing bytes. -/
+theorem rt_share_msg (l : List (Option (Bool × Nat))) (hl : l.length < 2 ^ 64)
+    (hm : ∀ b m, some (b, m) ∈ l → m < 2 ^ 128) (r : Bytes) :
+    decVec (decOpt (decPair decBool decU128)) (encVec (encOpt (encPair encBool encU128)) l ++ r) = .ok (l, r) := by
+  have hel : RTOn (fun o : Option (Bool × Nat) => ∀ b m, o = some (b, m) → m < 2 ^ 128)
+      (encOpt (encPair encBool encU128)) (decOpt (decPair decBool decU128)) := by
+    intro o r ho
+    cases o with
+    | none => simp [encOpt, decOpt]
+    | some p =>
+      obtain ⟨b, m⟩ := p
+      have hb := rt_bool b (encU128 m ++ r)
+      have hm := decU128_enc m (ho b m rfl) r
+      simp [encOpt, decOpt, encPair, decPair, List.append_assoc, hb, hm]
+  unfold decVec encVec
+  rw [List.append_assoc, decU64_enc _ hl]
+  have := flatMap_length_ge (encOpt (encPair encBool encU128)) (by intro a; cases a <;> simp [encOpt]) l
+  have hng : ¬ l.length > (l.flatMap (encOpt (encPair encBool encU128)) ++ r).length := by rw [List.length_append]; omega
+  simp only [hng, if_false]
+  exact decN_enc_on hel l (fun o ho b m h => hm b m (h ▸ ho)) r
 
 /-- non-vacuity: the share message type `Vec<Option<bool>>` with a trailing byte. -/
 example : decVec (decOpt decBool) (encVec (encOpt encBool) [some true, none, some false] ++ [7])
